@@ -101,7 +101,8 @@ def run(ctx):
         c20.extend_history(ctx, sess, regs, 60 if quick else 200)
         fam = [r for r in (sess.parse(t)[0] for t in markers.boolean_family(ctx.rng)) if r is not None]
         # near misses on one variable: same key, same operator, another value - never ==, never Equal
-        NEAR = [("os.name == 'posix'", "os_name == 'posix'"), ("sys.platform == 'linux'", "sys_platform == 'linux'"), ("platform.machine < 'x86_64'", "platform_machine < 'x86_64'"),
+        NEAR = [("extra == 'a b'", "extra == 'c d'"), ("extra != 'a b'", "extra != 'c d'"), ("extra == 'a b' and os_name == 'posix'", "extra == 'c d' and os_name == 'posix'"),
+                   ("os.name == 'posix'", "os_name == 'posix'"), ("sys.platform == 'linux'", "sys_platform == 'linux'"), ("platform.machine < 'x86_64'", "platform_machine < 'x86_64'"),
                    ("'Ubuntu' in platform.version", "'Ubuntu' in platform_version"), ("platform.version in 'Ubuntu Debian'", "platform_version in 'Ubuntu Debian'"),
                    ("python_implementation == 'CPython'", "platform_python_implementation == 'CPython'"), ("platform.python_implementation != 'PyPy'", "python_implementation != 'PyPy'"),
                    ("python_version >= '3.8' and os.name == 'posix'", "python_version >= '3.8' and os_name == 'posix'"),
